@@ -199,6 +199,7 @@ static void run_pipe(void) {
       bd->pos[0] = pilex[pile]; bd->pos[1] = piley[pile]; bd->pos[2] = z + h + 0.0005; z += 2 * h + 0.0005;
       mjs_addFreeJoint(bd);
       mjsGeom* bg = mjs_addGeom(bd, NULL); bg->type = mjGEOM_BOX; bg->size[0] = bg->size[1] = h; bg->size[2] = h;
+      snprintf(nm, sizeof nm, "gbox%d", b); mjs_setName(bg->element, nm);
       int p = mjg_int(r, 10);
       bd->sleep = all_init ? mjSLEEP_INIT : p == 0 ? mjSLEEP_NEVER : p == 1 ? mjSLEEP_ALLOWED : mjSLEEP_AUTO;
       pile_of[b] = pile;
@@ -209,6 +210,7 @@ static void run_pipe(void) {
   double brad = 0.05;
   { mjsBody* bd = mjs_addBody(w, NULL); mjs_setName(bd->element, "bullet"); bd->pos[0] = -2; bd->pos[1] = -2; bd->pos[2] = brad + 0.0005;
     mjs_addFreeJoint(bd); mjsGeom* bg = mjs_addGeom(bd, NULL); bg->type = mjGEOM_SPHERE; bg->size[0] = brad; bg->density = 3000;
+    mjs_setName(bg->element, "gbullet");
     int p = mjg_int(r, 3); bd->sleep = all_init ? mjSLEEP_INIT : p == 0 ? mjSLEEP_NEVER : mjSLEEP_AUTO; }
   // connect equalities between boxes of different piles
   int neq = (nbox >= 2) ? mjg_int(r, 3) : 0;
@@ -220,13 +222,32 @@ static void run_pipe(void) {
     snprintf(nm, sizeof nm, "box%d", c); mjs_setString(e->name2, nm);
     e->active = all_init ? 0 : mjg_chance(r, 0.5);
   }
+  // explicit contact pairs with their own parameters (variant bit 16 turns them off): sphere against
+  // about two thirds of the boxes, and some box-box pairs (neighbours in a pile or boxes of different piles)
+  int npair = 0; char used[MAXBOX][MAXBOX]; memset(used, 0, sizeof used);
+  if (!(variant & 16)) {
+    for (int k = 0; k < nbox; k++) if (mjg_int(r, 3) != 0) {
+      mjsPair* pr2 = mjs_addPair(s, NULL); snprintf(nm, sizeof nm, "gbox%d", k);
+      int flip = mjg_chance(r, 0.5);
+      mjs_setString(pr2->geomname1, flip ? "gbullet" : nm); mjs_setString(pr2->geomname2, flip ? nm : "gbullet");
+      pr2->condim = mjg_chance(r, 0.5) ? 3 : 4; pr2->friction[0] = pr2->friction[1] = mjg_range(r, 0.4, 1.2); npair++;
+    }
+    for (int k = 0; k + 1 < nbox; k++) if (mjg_chance(r, 0.3)) {
+      int c = mjg_chance(r, 0.6) ? k + 1 : mjg_int(r, nbox); if (c == k || used[k][c] || used[c][k]) continue;
+      used[k][c] = 1;
+      mjsPair* pr2 = mjs_addPair(s, NULL);
+      snprintf(nm, sizeof nm, "gbox%d", k); mjs_setString(pr2->geomname1, nm);
+      snprintf(nm, sizeof nm, "gbox%d", c); mjs_setString(pr2->geomname2, nm);
+      pr2->condim = 3; pr2->friction[0] = pr2->friction[1] = mjg_range(r, 0.6, 1.2); npair++;
+    }
+  }
   mjModel* m = mj_compile(s, NULL);
   if (!m) { printf("X compile: %s\n", mjs_getError(s)); return; }
   mjModel* m2 = mj_copyModel(NULL, m); m2->opt.enableflags &= ~mjENBL_SLEEP;
   mjData* d = NULL; mjData* d2 = NULL;
   if (MJG_TRY) { d = mj_makeData(m); d2 = mj_makeData(m2); MJG_END; } else { printf("E makeData %s\n", mjg_last_error); return; }
   int nt = m->ntree, bullet_body = m->nbody - 1, bullet_tree = m->body_treeid[bullet_body];
-  printf("H ntree %d nbody %d neq %d minawake %d tol %a policies", nt, m->nbody, m->neq, mjMINAWAKE, m->opt.sleep_tolerance);
+  printf("H ntree %d nbody %d neq %d minawake %d tol %a npair %d policies", nt, m->nbody, m->neq, mjMINAWAKE, m->opt.sleep_tolerance, m->npair);
   for (int t = 0; t < nt; t++) printf(" %d", m->tree_sleep_policy[t]);
   pr("| ta0", d->tree_asleep, nt);
   printf("\n");
